@@ -233,10 +233,20 @@ fn a_small(rng: &mut Rng) -> Arg {
     Arg::B(bytes_palette()[pick_small_bytes_idx(rng)].clone())
 }
 fn a_text(rng: &mut Rng) -> Arg {
+    if rng.chance(1, 4) {
+        return Arg::T(crate::traffic::gen_text(rng, &crate::traffic::GenCfg::small()));
+    }
     Arg::T(text_palette()[pick_text_idx(rng)].clone())
 }
+fn a_i64(rng: &mut Rng, pal: &[i64]) -> Arg {
+    if rng.chance(1, 3) {
+        Arg::I((rng.next_u64() as i64 >> rng.below(64)) as i128)
+    } else {
+        Arg::I(*rng.pick(pal) as i128)
+    }
+}
 fn a_hdr(rng: &mut Rng) -> Arg {
-    Arg::I(pick_header_idx(rng) as i128)
+    gen_header_arg(rng)
 }
 fn a_val(rng: &mut Rng) -> Arg {
     if rng.chance(1, 3) {
@@ -391,13 +401,13 @@ fn gen_op(builder: &str, rng: &mut Rng) -> Step {
                 if rng.bool() {
                     o("nonce", vec![Arg::S("bytes".into()), a_small(rng)])
                 } else {
-                    o("nonce", vec![Arg::S("int".into()), a_from(rng, NONCE_INTS)])
+                    o("nonce", vec![Arg::S("int".into()), a_i64(rng, NONCE_INTS)])
                 }
             }
             _ => o("other", vec![a_bytes(rng)]),
         },
         "SuppPubInfo" => match rng.below(3) {
-            0 => o("key_data_length", vec![Arg::I(*rng.pick(KEY_DATA_LENGTHS) as i128)]),
+            0 => o("key_data_length", vec![if rng.chance(1, 3) { Arg::I((rng.next_u64() >> rng.below(64)) as i128) } else { Arg::I(*rng.pick(KEY_DATA_LENGTHS) as i128) }]),
             1 => o("protected", vec![a_hdr(rng)]),
             _ => o("other", vec![a_bytes(rng)]),
         },
@@ -414,7 +424,10 @@ fn gen_op(builder: &str, rng: &mut Rng) -> Step {
 
 fn gen_ts(rng: &mut Rng) -> Vec<Arg> {
     if rng.chance(2, 3) {
-        vec![Arg::S("whole".into()), a_from(rng, TIMESTAMPS_WHOLE)]
+        vec![Arg::S("whole".into()), a_i64(rng, TIMESTAMPS_WHOLE)]
+    } else if rng.chance(1, 3) {
+        // any bit pattern, including NaN, infinities and subnormals
+        vec![Arg::S("frac".into()), Arg::I(rng.next_u64() as i128)]
     } else {
         vec![Arg::S("frac".into()), Arg::I(rng.pick(TIMESTAMPS_FRAC).to_bits() as i128)]
     }
@@ -589,13 +602,13 @@ fn exec_signature(t: &Trace) -> HResult<Option<Violation>> {
     drive!(b, t.steps, |s| {
         match s.name.as_str() {
             "protected" => {
-                let h = header_by_idx(s.usize(0)?)?;
+                let h = header_from_arg(s, 0)?;
                 let ch = h.to_coset();
                 m.protected = MProtected::built(h);
                 (Pred::Accept, ok(move |b: coset::CoseSignatureBuilder| b.protected(ch)), None)
             }
             "unprotected" => {
-                let h = header_by_idx(s.usize(0)?)?;
+                let h = header_from_arg(s, 0)?;
                 let ch = h.to_coset();
                 m.unprotected = h;
                 (Pred::Accept, ok(move |b: coset::CoseSignatureBuilder| b.unprotected(ch)), None)
@@ -625,13 +638,13 @@ macro_rules! hdr_ops {
     ($s:ident, $m:ident, $bt:ty) => {
         match $s.name.as_str() {
             "protected" => {
-                let h = header_by_idx($s.usize(0)?)?;
+                let h = header_from_arg($s, 0)?;
                 let ch = h.to_coset();
                 $m.protected = MProtected::built(h);
                 Some((Pred::Accept, ok(move |b: $bt| b.protected(ch)), None))
             }
             "unprotected" => {
-                let h = header_by_idx($s.usize(0)?)?;
+                let h = header_from_arg($s, 0)?;
                 let ch = h.to_coset();
                 $m.unprotected = h;
                 Some((Pred::Accept, ok(move |b: $bt| b.unprotected(ch)), None))
@@ -1353,7 +1366,7 @@ fn exec_supp(t: &Trace) -> HResult<Option<Violation>> {
                 (Pred::Accept, ok(move |b: B| b.key_data_length(v)), None)
             }
             "protected" => {
-                let h = header_by_idx(s.usize(0)?)?;
+                let h = header_from_arg(s, 0)?;
                 let ch = h.to_coset();
                 m.protected = MProtected::built(h);
                 (Pred::Accept, ok(move |b: B| b.protected(ch)), None)
